@@ -165,7 +165,14 @@ func (s *Scheduler) Stop(ctx context.Context) error {
 // It is important that jobs are valid, so care is taken to validate the JobConfiguration before
 // it can be scheduled.
 func (s *Scheduler) AddJob(jobConfig *JobConfiguration) error {
-	err := s.verify(jobConfig)
+	// verify rewrites the error handlers in place for the runtime (retryDelay seconds -> nanoseconds).
+	// What gets stored has to be the configuration as given, otherwise every reload - a restart, pause
+	// or resume - converts the stored value once more until it overflows.
+	asGiven, err := json.Marshal(jobConfig)
+	if err != nil {
+		return err
+	}
+	err = s.verify(jobConfig)
 	if err != nil {
 		return err
 	}
@@ -176,7 +183,7 @@ func (s *Scheduler) AddJob(jobConfig *JobConfiguration) error {
 		return err
 	}
 
-	err = s.Store.StoreObject(server.JobConfigIndex, jobConfig.ID, jobConfig) // store it for the future
+	err = s.Store.StoreObject(server.JobConfigIndex, jobConfig.ID, json.RawMessage(asGiven)) // store it for the future
 	if err != nil {
 		return err
 	}
